@@ -747,6 +747,22 @@ func genPubItem(t *rapid.T, spec *SysSpec, bad string, fixed ...*RouteSpec) PubI
 		it.DupRef = intp(rapid.IntRange(0, 5).Draw(t, "dupref"))
 	case "target_unknown":
 		it.Target = "https://not-a-target.example/x"
+		if len(tg) > 0 {
+			// near misses of one of the route's own targets: another spelling is
+			// another target (a message stored under it is served by nobody)
+			base := tg[rapid.IntRange(0, len(tg)-1).Draw(t, "near.of")]
+			flip := func(s string) string {
+				if i := strings.LastIndex(s, "/"); i >= 0 && i+1 < len(s) && strings.Contains(s, "://") {
+					return s[:i+1] + strings.ToUpper(s[i+1:])
+				}
+				return strings.ToUpper(s)
+			}
+			cands := []string{it.Target, flip(base), base + "/", base + "x", base[:len(base)-1]}
+			c := cands[rapid.IntRange(0, len(cands)-1).Draw(t, "near")]
+			if c != base && strings.TrimSpace(c) != "" {
+				it.Target = c
+			}
+		}
 	case "boundary_payload":
 		it.Bad = ""
 		if maxBody <= 4096 {
